@@ -659,6 +659,12 @@ func insertSeparatorsAt(integer string, sep rune, positions []int, fromRight boo
 			n = utf8.RuneCountInString(s) - n
 		}
 
+		// A position outside the digits gets no separator
+		// (the number is shorter than the picture).
+		if n <= 0 || n >= utf8.RuneCountInString(s) {
+			continue
+		}
+
 		pos := 0
 		for n > 0 {
 			_, w := utf8.DecodeRuneInString(s[pos:])
